@@ -291,6 +291,7 @@ func shards(tier string) []string {
 			for a := range alphabet {
 				out = append(out, fmt.Sprintf("%s/%s/%d", kind, path, a))
 			}
+			out = append(out, fmt.Sprintf("%s/%s/long", kind, path))
 		}
 	}
 	return out
@@ -303,7 +304,7 @@ func run(c *core.Ctx) {
 	kind, path = parts[0], parts[1]
 	fmt.Sscanf(parts[2], "%d", &first)
 	L := maxLen(c.Tier, path)
-	c.Res.Bound = fmt.Sprintf("member sequences of length <= %d over %d values incl. implicit x all patterns of repeated names; enums and bits; API and module text", L, len(alphabet))
+	c.Res.Bound = fmt.Sprintf("member sequences of length <= %d over %d values incl. implicit x all patterns of repeated names; enums and bits; API and module text; long lists: 1..300 implicit members alone and followed by an explicit repeat, and pairs with the same explicit value v for every v in 0..300 and around the powers of two to 2^32", L, len(alphabet))
 	vals := make([]string, 0, L)
 	names := make([]string, 0, L)
 	var rec func()
@@ -333,6 +334,40 @@ func run(c *core.Ctx) {
 			b, _ := json.Marshal(in)
 			c.Sample(string(b))
 		}
+	}
+	if parts[2] == "long" {
+		// long member lists and values off the boundary grid: n implicit members (every n to 300)
+		// alone, followed by an explicit member that repeats the value of the last one, of the
+		// middle one, or takes the next free value; two members with the same explicit value v for
+		// every v from 0 to 300 and around the powers of two to 2^32
+		set := func(ns, vs []string) { names, vals = ns, vs; one() }
+		for n := 1; n <= 300 && !c.Expired(); n++ {
+			var ns, vs []string
+			for i := 0; i < n; i++ {
+				ns, vs = append(ns, fmt.Sprintf("n%d", i)), append(vs, "")
+			}
+			set(ns, vs)
+			for _, v := range []int{n - 1, n / 2, n} {
+				set(append(append([]string{}, ns...), "x"), append(append([]string{}, vs...), fmt.Sprint(v)))
+				set(append(append([]string{}, ns...), "x", "y"), append(append([]string{}, vs...), fmt.Sprint(v), ""))
+			}
+		}
+		var vsweep []int64
+		for v := int64(0); v <= 300; v++ {
+			vsweep = append(vsweep, v)
+		}
+		for p := int64(512); p <= 1<<32; p *= 2 {
+			vsweep = append(vsweep, p-1, p, p+1)
+		}
+		for _, v := range vsweep {
+			set([]string{"a", "b"}, []string{fmt.Sprint(v), fmt.Sprint(v)})
+			set([]string{"a", "b", "c"}, []string{fmt.Sprint(v), "", fmt.Sprint(v + 1)})
+			set([]string{"a", "b", "c"}, []string{fmt.Sprint(v + 1), fmt.Sprint(v), ""})
+			if kind == "enum" && v > 0 {
+				set([]string{"a", "b"}, []string{fmt.Sprint(-v), fmt.Sprint(-v)})
+			}
+		}
+		return
 	}
 	rec = func() {
 		if c.Expired() {
